@@ -1,13 +1,24 @@
 """C15 — generated names never collide; name fixing yields unique names only; bulk renaming is
 all-or-nothing (DESIGN.md section 5, C15).
 
-Part A (name authority).  Random add / remove / re-add histories on real `ir.Graph`s
-(`Graph(...)`, `append`, `extend`, `insert_before`, `insert_after`, `remove`, renaming a detached
-node) with explicit names drawn from a pool that contains `val_k` / `node_<op>_k` shapes.  Every
-call the graph makes on its `NameAuthority` is mirrored as one primitive op of the Lean model
-(`names.hist`); compared: the name every object has right after the call, the two counters and
-the two seen sets.  Oracle (independent of the model): a generated name is new w.r.t. every name
-the graph registered or assigned before; an explicit name is unchanged.
+Part A (name authority, graph level).  Random replayable histories on a real `ir.Graph` (optionally behind an
+`ir.Function`): constructor (inputs, outputs, initializers, nodes with inputs), `append/extend/insert_*`,
+`Node(graph=g)`, `remove`, re-add (renamed while detached), `inputs/outputs` append/insert/pop,
+`initializers.add / [key]=unnamed / pop`, `value.name=` / `node.name=` on objects in the graph, `clone()`.  Explicit
+names come from a pool with `val_k` / `node_<op>_k` shapes.  Every way a name reaches the graph's NameAuthority is
+mirrored as one op of the Lean graph-level model (`names.ghist`; the authority-level `names.hist` is cross-checked);
+compared: every object's name, both counters, both seen sets, ownership.  Oracle (does not look at the authority):
+a generated name differs from every name any object owned by the graph carries or carried; explicit names are kept.
+
+Part B (NameFixPass).  Random specs built into real models: nesting, GRAPH/GRAPHS/reference attributes, functions
+(with initializers in the underlying graph), forward references and forward captures, ill-scoped and shared-object
+streams, many duplicates (two-digit counters), non-ASCII names; compared: all names, dictionaries (order), flags,
+`modified`, raise; the Lean-evaluated hypotheses (scopedB, Closed, ownership rule) against Python restatements.
+Oracle: the postcondition on the real objects (per scope list and per ownership), identity snapshot of everything else.
+
+Part C (rename_values).  Exhaustive small assignments + random ones with repeated pairs, shared and refusing
+backing tensors (rollback), values owned by no graph, scalar arguments; compared with `names.rename`; oracle:
+all-or-nothing including tensor names.
 """
 from __future__ import annotations
 
@@ -38,13 +49,19 @@ ASSUMPTIONS = [
     "only the default SimpleNameGenerator of NameFixPass is modelled (a custom NameGenerator is outside the model)",
     "NameFixPass / rename_values theorems assume InitsOk (initializer dictionaries keyed by the current non-empty "
     "names: kernel invariant I_key, property C01); post/keeps_unique/idempotent additionally assume the scoping rule "
-    "scopedB (a value is used only in the graph that first mentions it or in graphs nested in it afterwards), node "
-    "objects occurring once, and top-level graphs sharing no values (PassWF); the harness evaluates these hypotheses "
-    "on every generated model and reports the share",
+    "scopedB, node objects occurring once, and top-level graphs sharing no values (PassWF); scopedB is implied "
+    "(theorem C15_scoped_of_well_owned) by the ownership rule: every value a node uses is owned by its graph or an "
+    "enclosing graph, wherever it is defined (unsorted graphs and forward captures included); excluded are values "
+    "owned by a sibling / unrelated graph or by no graph; the harness evaluates these hypotheses on every model",
+    "a subgraph-local name is compared with all names owned by its enclosing graphs (also later-defined ones) but "
+    "a name first met inside a nested graph that is owned by no enclosing graph is not compared with anything outside",
+    "graph-level authority model: ownership (value.graph is g) of every tracked object is observed on the real "
+    "objects and fed to the model as drop events; attach events are derived from the API call made",
     "'nothing but names changed' is structural in the model (the object tree is an input only); on the real objects "
     "it is checked by the oracle (identity snapshot of graphs, nodes, values, uses, attributes, backing tensors)",
-    "renaming the backing tensor (const_value.name) and values that have a producer and are registered as "
-    "initializers are not modelled (the first is checked by the oracle only)",
+    "backing tensors are modelled for rename_values (shared tensors, tensors refusing a name, rollback); for "
+    "NameFixPass the tensor rename inside Value.name= is checked by the oracle only; values that have a producer "
+    "and are registered as initializers are not modelled",
     "TypeError paths of rename_values (non-Value / non-str arguments, length mismatch) are outside the typed model",
 ]
 
